@@ -609,3 +609,43 @@ func (r *Run) WatchPlaintext(ctx string) {
 		tails[key] = buf
 	}
 }
+
+// HostDialEchoLate dials brokered id (net/rpc), echoes size bytes, waits, and
+// echoes late bytes on the same connection.
+func HostDialEchoLate(cmd plugins.Cmd, id uint32, size int, wait time.Duration, late int) (string, error) {
+	c, ok := cmd.(*plugins.RPCClient)
+	if !ok {
+		return HostDialEcho(cmd, id, size)
+	}
+	conn, err := c.Broker.Dial(id)
+	if err != nil {
+		return "", err
+	}
+	defer conn.Close()
+	ans, err := plugins.EchoOnce(conn, id, size)
+	if err != nil {
+		return ans, err
+	}
+	time.Sleep(wait)
+	if _, err := plugins.EchoOnce(conn, id, late); err != nil {
+		return ans, fmt.Errorf("late use of the dialled connection: %w", err)
+	}
+	return ans, nil
+}
+
+// HostAcceptOwn accepts brokered id on the host with Broker.Accept and serves
+// it with a server of the harness's own, which the returned function stops
+// (closing the listener).
+func HostAcceptOwn(cmd plugins.Cmd, id uint32) (stop func(), err error) {
+	gc, ok := cmd.(*plugins.GRPCClient)
+	if !ok {
+		return nil, fmt.Errorf("HostAcceptOwn: gRPC only")
+	}
+	ln, err := gc.Broker.Accept(id)
+	if err != nil {
+		return nil, err
+	}
+	srv := plugins.NewPingPongServer(nil, id, nil)
+	go k.Trap(func() { srv.Serve(ln) })
+	return srv.Stop, nil
+}
